@@ -79,6 +79,20 @@ def popcount16 (x : Nat) : Nat := (List.range 16).foldl (fun acc i => acc + bitN
 def ac13OfGillham (g : Nat) : Nat :=
   fieldOfDigits ((g >>> 12) % 8) ((g >>> 8) % 8) ((g >>> 4) % 8) (g % 8)
 
+/-- The step whose Gillham code, placed in a 13-bit AC field, is the given field: a plain search
+    through the encoder over the 1280 steps (`none`: the field is no Gillham code). -/
+def gillhamStepOf (f : Nat) : Option Nat :=
+  (List.range GILLHAM_STEPS).find? (fun s => ac13OfGillham (gillhamEncode s) == f)
+
+/-- The standard's altitude (ft) of a GIVEN 13-bit field with M = 0, Q = 0, as the decoder's
+    unsigned 16-bit result reports it: `-1200 + 100·s` ft for the step `s` found through the
+    encoder when that is in 0 … 65 535 ft, and 0 ("unavailable") for a negative altitude, an
+    altitude above the `u16` range, or a field that is not a Gillham code. -/
+def ac13SpecQ0 (f : Nat) : Nat :=
+  match gillhamStepOf f with
+  | some s => if 12 ≤ s ∧ 100 * (s - 12) < 65536 then 100 * (s - 12) else 0
+  | none => 0
+
 /-- 25 ft encoding (Q = 1, M = 0): altitude `25·n − 1000` ft for the 11-bit `n`. -/
 def ac13OfN25 (n : Nat) : Nat :=
   -- n bits 10..5 go above the M bit, bit 4 between M and Q, bits 3..0 below Q
